@@ -1,5 +1,546 @@
 import Driver.Util
+import KavaVerif.Model.Permissions
+import KavaVerif.Model.Committee
+import KavaVerif.Generated.C17Router
+/-!
+  C17 driver.
+
+  Document encoding (no TAB/newline; strings stay hex-encoded — the model only compares them):
+    n | t | f | d<hex>. (number, canonical float64 text) | s<hex>. | [v…] | {<keyhex>.v …}
+    `!` = not valid JSON for encoding/json, `-` = subspace not found, `e` = empty raw value.
+
+  c17.apc  apc changeSubHex changeKeyHex top schema cur inc => verdict handler after
+      apc    = subHex/keyHex/single,…/k:v:a,…|k:v:a,…        (hex everywhere)
+      top    = S (struct parameter) | M (array parameter) | O (other)
+      schema = field:omit,field:omit,…   (JSON names of the element struct, omit ∈ 0|1; hex names)
+      verdict ∈ yes|no|panic (real allowsParamChange); handler ∈ ok|err|panic|skip; after = raw value
+      after the real params handler ran on the accepted document (`-` otherwise)
+  c17.has  perms changesOrKind store => verdict
+  c17.life committees proposals votes nextId ext op => class proposals' votes' nextId' ext' events
+-/
 namespace Drv.C17
+open KV KV.Perm KV.Com
+
+/-! ### parsing -/
+
+def isHex (c : Char) : Bool := c.isDigit || ('a' ≤ c && c ≤ 'f')
+
+def takeHex : List Char → List Char → (String × List Char)
+  | acc, c :: cs => if isHex c then takeHex (c :: acc) cs else (String.ofList acc.reverse, c :: cs)
+  | acc, [] => (String.ofList acc.reverse, [])
+
+mutual
+partial def parseVal : List Char → Option (Json × List Char)
+  | 'n' :: r => some (.null, r)
+  | 't' :: r => some (.bool true, r)
+  | 'f' :: r => some (.bool false, r)
+  | 'd' :: r => match takeHex [] r with
+    | (h, '.' :: r') => some (.num h, r')
+    | _ => none
+  | 's' :: r => match takeHex [] r with
+    | (h, '.' :: r') => some (.str h, r')
+    | _ => none
+  | '[' :: r => match parseArr r [] with
+    | some (xs, r') => some (.arr xs, r')
+    | none => none
+  | '{' :: r => match parseObj r [] with
+    | some (kvs, r') => some (.obj kvs, r')
+    | none => none
+  | _ => none
+partial def parseArr : List Char → List Json → Option (List Json × List Char)
+  | ']' :: r, acc => some (acc.reverse, r)
+  | cs, acc => match parseVal cs with
+    | some (v, r) => parseArr r (v :: acc)
+    | none => none
+partial def parseObj : List Char → List (String × Json) → Option (List (String × Json) × List Char)
+  | '}' :: r, acc => some (acc.reverse, r)
+  | cs, acc => match takeHex [] cs with
+    | (k, '.' :: r) => match parseVal r with
+      | some (v, r') => parseObj r' ((k, v) :: acc)
+      | none => none
+    | _ => none
+end
+
+def parseDoc (s : String) : Option Json :=
+  match parseVal s.toList with
+  | some (v, []) => some v
+  | _ => none
+
+/-- incoming value: `!` = invalid JSON -/
+def parseInc (s : String) : Option (Option Json) :=
+  if s == "!" then some none else (parseDoc s).map some
+
+/-- current raw value: `-` no subspace, `e` empty -/
+def parseCur (s : String) : Option (Option (Option Json)) :=
+  if s == "-" then some none
+  else if s == "e" then some (some none)
+  else (parseDoc s).map (fun j => some (some j))
+
+def lst (s : String) (sep : String) : List String := if s == "" then [] else s.splitOn sep
+
+def parseReq (s : String) : Option Req :=
+  match s.splitOn ":" with
+  | [k, v, a] => some { key := k, val := v, allowed := lst a "," }
+  | _ => none
+
+def parseApc (s : String) : Option APC :=
+  match s.splitOn "/" with
+  | [sub, key, single, multi] =>
+    match (lst multi "|").mapM parseReq with
+    | some reqs => some { subspace := sub, key := key, single := lst single ",", multi := reqs }
+    | none => none
+  | _ => none
+
+def parseSchema (s : String) : List (String × Bool) :=
+  (lst s ",").filterMap fun f => match f.splitOn ":" with
+    | [n, o] => some (n, o == "1")
+    | _ => none
+
+/-! ### printing (for mismatch messages) -/
+
+mutual
+partial def showJ : Json → String
+  | .null => "n" | .bool true => "t" | .bool false => "f"
+  | .num r => s!"d{r}." | .str s => s!"s{s}."
+  | .arr xs => "[" ++ String.join (xs.map showJ) ++ "]"
+  | .obj kvs => "{" ++ String.join (kvs.map fun kv => kv.1 ++ "." ++ showJ kv.2) ++ "}"
+end
+
+def showV : Verdict → String
+  | .yes => "yes" | .no => "no" | .panic => "panic"
+
+/-! ### the property predicate on the implementation's own before/after documents -/
+
+def lookupD (o : Obj) (k : String) : Option Json := o.lookup k
+
+def sameField (a b : Option Json) : Bool :=
+  match a, b with
+  | none, none => true
+  | some x, some y => Json.beq x y
+  | _, _ => false
+
+/-- first unlisted key whose value differs between the stored record before and after -/
+def firstChanged (before after : Obj) (allow : List String) : Option String :=
+  ((keys before ++ keys after).filter (fun k => !allow.contains k)).find?
+    (fun k => !sameField (lookupD before k) (lookupD after k))
+
+def tagFor (before : Obj) (k : String) : String :=
+  if (lookupD before k).isNone then "omitted-field-set" else "protected-field-changed"
+
+/-- single struct parameter -/
+def predSingle (before after : Obj) (allow : List String) : String :=
+  match firstChanged before after allow with
+  | none => "ok"
+  | some k => predfail "C17_only_allowed_fields" s!"{tagFor before k} key={k}"
+
+def compatible (c a : Obj) (r : Req) : Bool :=
+  matchesReq a r && (firstChanged c a r.allowed).isNone
+
+/-- array parameter: same number of records; every stored record has a compatible record afterwards
+    (same requirement value, unlisted fields equal); every record afterwards is compatible with a stored one -/
+def predMulti (reqs : List Req) (before after : List Obj) : String :=
+  if before.length != after.length then predfail "C17_only_allowed_fields" "record-count-changed"
+  else
+    let reqOf := fun (c : Obj) => reqs.find? (matchesReq c)
+    match before.find? (fun c => match reqOf c with
+        | none => true
+        | some r => !(after.any (fun a => compatible c a r))) with
+    | some c =>
+      match reqOf c with
+      | none => predfail "C17_only_allowed_fields" "record-without-requirement-accepted"
+      | some r =>
+        match after.find? (fun a => matchesReq a r) with
+        | none => predfail "C17_only_allowed_fields" "record-removed"
+        | some a =>
+          match firstChanged c a r.allowed with
+          | some k => predfail "C17_only_allowed_fields" s!"{tagFor c k} key={k}"
+          | none => predfail "C17_only_allowed_fields" "record-mismatch"
+    | none =>
+      if after.all (fun a => before.any (fun c => match reqOf c with
+          | none => false
+          | some r => compatible c a r)) then "ok"
+      else predfail "C17_only_allowed_fields" "record-replaced"
+
+/-! ### c17.apc -/
+
+def asObjs (j : Json) : Option (List Obj) := asMaps j
+
+def schemaOf (l : List (String × Bool)) : Schema :=
+  { fields := l.map (·.1), omitEmpty := fun k => (l.lookup k).getD false }
+
+/-- model's "this field reads back unchanged" claims, checked against the implementation's after-record -/
+def applierCheck (sch : Schema) (base : String → Json) (cur inc after : Obj) : String :=
+  match sch.fields.find? (fun k =>
+      Json.beq (applyRec sch base inc k) (recOf cur k) && !Json.beq (recOf after k) (recOf cur k)) with
+  | none => "ok"
+  | some k => mismatch "applier-field" s!"unchanged:{k}" s!"changed:{showJ (recOf after k)}"
+
+def handleApc : Handler
+  | [apcS, csub, ckey, top, schemaS, curS, incS, _, verdict, handler, afterS] =>
+    match parseApc apcS, parseCur curS, parseInc incS with
+    | some apc, some cur, some inc =>
+      let st : Store := fun _ _ => cur
+      let c : Change := { subspace := csub, key := ckey, value := inc }
+      let mv := allowsParamChange apc st c
+      let cmpVerdict := if showV mv != verdict then mismatch "verdict" (showV mv) verdict else "ok"
+      if verdict != "yes" || handler != "ok" then cmpVerdict
+      else if apc.single.isEmpty && apc.multi.isEmpty then cmpVerdict   -- no sub-rules: everything allowed
+      else
+        let sch := schemaOf (parseSchema schemaS)
+        match cur, inc, parseDoc afterS with
+        | some (some curJ), some incJ, some afterJ =>
+          if top == "M" then
+            match asMaps curJ, asMaps incJ, asMaps afterJ with
+            | some cb, some ib, some ab =>
+              -- (2) the property predicate on the implementation's own before/after, first
+              let pr := predMulti apc.multi cb ab
+              if pr != "ok" then pr else
+              if cmpVerdict != "ok" then cmpVerdict else
+              -- (1) applier model: record by record, in incoming order
+              if ib.length != ab.length then mismatch "applier-records" (toString ib.length) (toString ab.length)
+              else allOk (cb.map fun c =>
+                match matchIdx apc.multi ib c with
+                | some j =>
+                  match ib[j]?, ab[j]? with
+                  | some i, some a => applierCheck sch zeroRec c i a
+                  | _, _ => "ok"
+                | none => "ok")
+            | _, _, _ => if cmpVerdict != "ok" then cmpVerdict else badInput "multi-docs"
+          else
+            match asMap curJ, asMap incJ, asMap afterJ with
+            | some cb, some ib, some ab =>
+              let pr := predSingle cb ab apc.single
+              if pr != "ok" then pr else
+              if cmpVerdict != "ok" then cmpVerdict else
+              applierCheck sch (recOf cb) cb ib ab
+            | _, _, _ => if cmpVerdict != "ok" then cmpVerdict else badInput "single-docs"
+        | _, _, _ => if cmpVerdict != "ok" then cmpVerdict else badInput "docs"
+    | _, _, _ => badInput "parse"
+  | _ => badInput "arity"
+
+/-! ### c17.has : Committee.HasPermissionsFor -/
+
+def parsePerm (s : String) : Option Permission :=
+  match s.toList with
+  | ['G'] => some .god
+  | ['T'] => some .text
+  | ['U'] => some .softwareUpgrade
+  | ['R'] => some .cdpRepayDebt
+  | ['L'] => some .lendWithdraw
+  | ['W'] => some .cdpWithdrawCollateral
+  | 'P' :: rest =>
+    match (lst (String.ofList rest) "&").mapM parseApc with
+    | some apcs => some (.paramsChange apcs)
+    | none => none
+  | _ => none
+
+def parseChange (s : String) : Option Change :=
+  match s.splitOn "/" with
+  | [sub, key, v] => (parseInc v).map fun inc => { subspace := sub, key := key, value := inc }
+  | _ => none
+
+def parseContent (s : String) : Option Content :=
+  match s.toList with
+  | ['T'] => some .text
+  | ['U'] => some .softwareUpgrade
+  | ['R'] => some .cdpRepayDebt
+  | ['L'] => some .lendWithdraw
+  | ['W'] => some .cdpWithdrawCollateral
+  | ['O'] => some .other
+  | 'P' :: rest =>
+    match (lst (String.ofList rest) "&").mapM parseChange with
+    | some cs => some (.paramChange cs)
+    | none => none
+  | _ => none
+
+def parseStore (s : String) : Option Store :=
+  let entries := (lst s "&").mapM fun e => match e.splitOn "/" with
+    | [sub, key, cur] => (parseCur cur).map fun c => ((sub, key), c)
+    | _ => none
+  entries.map fun es => fun sub key => ((es.find? (fun e => e.1.1 == sub && e.1.2 == key)).map (·.2)).getD none
+
+def handleHas : Handler
+  | [permsS, contentS, storeS, _, verdict] =>
+    match (lst permsS "+").mapM parsePerm, parseContent contentS, parseStore storeS with
+    | some perms, some content, some st =>
+      let mv := hasPermissionsFor st content perms
+      let cmp := if showV mv != verdict then mismatch "verdict" (showV mv) verdict else "ok"
+      -- C17_unlisted_param_refused on the implementation's verdict, first
+      let pr := match content with
+        | .paramChange cs =>
+          let hasGod := perms.any fun p => match p with | .god => true | _ => false
+          let listed := fun (c : Change) => perms.any fun p => match p with
+            | .paramsChange apcs => apcs.any (fun a => a.subspace == c.subspace && a.key == c.key)
+            | _ => false
+          if verdict == "yes" && !hasGod && cs.any (fun c => !listed c) then
+            predfail "C17_unlisted_param_refused" "accepted"
+          else "ok"
+        | _ => "ok"
+      if pr != "ok" then pr else cmp
+    | _, _, _ => badInput "parse"
+  | _ => badInput "arity"
+
+/-! ### c17.life : lifecycle steps -/
+
+/-- contents the lifecycle harness submits -/
+inductive LC where
+  | text
+  | upgrade (h : Int)
+  | param (key : String) (v : Int) (wellFormed : Bool)
+  | committeeChange
+  deriving DecidableEq, Inhabited
+
+/-- permissions the lifecycle harness gives to committees -/
+inductive LP where
+  | god | text | upgrade | param (key : String)
+  deriving DecidableEq, Inhabited
+
+structure LExt where
+  height : Int
+  params : List (String × Int)
+  plan : Int
+  bals : List Int
+  supply : Int
+  deriving DecidableEq, Inhabited
+
+def setParam (ps : List (String × Int)) (k : String) (v : Int) : List (String × Int) :=
+  ps.map fun kv => if kv.1 == k then (k, v) else kv
+
+def lenv : Env LExt LC LP where
+  route := fun c => match c with
+    | .text => "gov" | .upgrade _ => "upgrade" | .param _ _ _ => "params" | .committeeChange => KV.Gen.committeeRouterKey
+  routes := KV.Gen.committeeRouterRoutes
+  validBasic := fun c => match c with
+    | .upgrade h => h > 0
+    | _ => true
+  permits := fun p c _ => match p, c with
+    | .god, _ => true
+    | .text, .text => true
+    | .upgrade, .upgrade _ => true
+    | .param k, .param k' _ _ => k == k'
+    | _, _ => false
+  handler := fun c e => match c with
+    | .text => some e
+    | .upgrade h => if h ≥ e.height then some { e with plan := h } else none
+    | .param k v wf => if wf && v > 0 && (e.params.lookup k).isSome then some { e with params := setParam e.params k v } else none
+    | .committeeChange => none
+  bal := fun e _ a => e.bals.getD a 0
+  supply := fun e _ => e.supply
+
+def parseLC (s : String) : Option LC :=
+  match s.toList with
+  | ['t'] => some .text
+  | ['c'] => some .committeeChange
+  | 'u' :: r => (int? (String.ofList r)).map .upgrade
+  | 'p' :: r =>
+    match (String.ofList r).splitOn "=" with
+    | [k, v] => match int? v with
+      | some i => some (.param k i true)
+      | none => some (.param k 0 false)
+    | _ => none
+  | _ => none
+
+def showLC : LC → String
+  | .text => "t" | .committeeChange => "c" | .upgrade h => s!"u{h}"
+  | .param k v wf => if wf then s!"p{k}={v}" else s!"p{k}=x"
+
+def parseLP (s : String) : Option LP :=
+  match s.toList with
+  | ['G'] => some .god | ['T'] => some .text | ['U'] => some .upgrade
+  | 'K' :: r => some (.param (String.ofList r))
+  | _ => none
+
+def parseCom (s : String) : Option (Committee LP) :=
+  match s.splitOn ":" with
+  | [id, ty, mem, perm, thr, quo, dur, fptp] =>
+    match nat? id, nats? mem, parseLP perm, int? thr, int? quo, int? dur, bool? fptp with
+    | some id, some mem, some perm, some thr, some quo, some dur, some fptp =>
+      some { id := id, token := ty == "T", members := mem, perms := perm, threshold := ⟨thr⟩, quorum := ⟨quo⟩,
+             duration := dur, fptp := fptp, denom := "" }
+    | _, _, _, _, _, _, _ => none
+  | _ => none
+
+def parseProp (s : String) : Option (Proposal LC) :=
+  match s.splitOn ":" with
+  | [id, cid, dl, c] =>
+    match nat? id, nat? cid, int? dl, parseLC c with
+    | some id, some cid, some dl, some c => some { id := id, cid := cid, deadline := dl, content := c }
+    | _, _, _, _ => none
+  | _ => none
+
+def parseVT (s : String) : Option VoteType :=
+  match s with
+  | "y" => some .yes | "n" => some .no | "a" => some .abstain | _ => none
+
+def parseVote (s : String) : Option Vote :=
+  match s.splitOn ":" with
+  | [pid, v, t] => match nat? pid, nat? v, parseVT t with
+    | some pid, some v, some t => some ⟨pid, v, t⟩
+    | _, _, _ => none
+  | _ => none
+
+def parseExt (s : String) : Option LExt :=
+  match s.splitOn ";" with
+  | [h, ps, plan, bals, sup] =>
+    let pl := (lst ps ",").mapM fun kv => match kv.splitOn "=" with
+      | [k, v] => (int? v).map fun i => (k, i)
+      | _ => none
+    match int? h, pl, int? plan, ints? bals, int? sup with
+    | some h, some pl, some plan, some bals, some sup => some ⟨h, pl, plan, bals, sup⟩
+    | _, _, _, _, _ => none
+  | _ => none
+
+def parseEvents (s : String) : Option (List (Nat × String)) :=
+  (lst s ",").mapM fun e => match e.splitOn ":" with
+    | [p, o] => (nat? p).map fun p => (p, o)
+    | _ => none
+
+def showProp (p : Proposal LC) : String := s!"{p.id}:{p.cid}:{p.deadline}:{showLC p.content}"
+def showVT : VoteType → String
+  | .yes => "y" | .no => "n" | .abstain => "a"
+def showVote (v : Vote) : String := s!"{v.pid}:{v.voter}:{showVT v.vt}"
+def showOutcome : Outcome → String
+  | .passed => "Passed" | .failed => "Failed" | .invalid => "Invalid"
+def showExt (e : LExt) : String :=
+  let ps := ",".intercalate (e.params.map fun kv => s!"{kv.1}={kv.2}")
+  s!"{e.height};{ps};{e.plan};{showInts e.bals};{e.supply}"
+
+def sortVotes (vs : List Vote) : List Vote :=
+  (vs.toArray.qsort (fun a b => a.pid < b.pid || (a.pid == b.pid && a.voter < b.voter))).toList
+
+def showList (l : List String) (sep : String) : String := if l.isEmpty then "-" else sep.intercalate l
+
+abbrev LSt := St LExt LC LP
+
+def closedEvents (l : List Event) : List (Nat × String) :=
+  l.filterMap fun e => match e with
+    | .closed p o => some (p, showOutcome o)
+    | .enacted _ => none
+
+/-- independent evaluation of the tally formulas of C17_member_tally / C17_token_tally on the observation -/
+def tallyPasses (com : Committee LP) (votes : List Vote) (ext : LExt) (pid : Nat) : Bool :=
+  let vs := votes.filter (fun v => v.pid == pid)
+  if com.token then
+    let w := fun (l : List Vote) => (l.map (fun v => ext.bals.getD v.voter 0)).foldl (· + ·) 0
+    let yes := w (vs.filter (fun v => v.vt == .yes))
+    let no := w (vs.filter (fun v => v.vt == .no))
+    let total := w vs
+    decide ((com.quorum.mul (Dec.ofInt ext.supply)).m ≤ total * P) &&
+      decide (((Dec.ofInt (yes + no)).mul com.threshold).m ≤ yes * P)
+  else
+    decide ((com.threshold.mul (Dec.ofInt com.members.length)).m ≤ (vs.length : Int) * P)
+
+def lifePred (pre : LSt) (op : List String) (cls : String) (props' : List (Proposal LC)) (votes' : List Vote)
+    (ext' : LExt) (events : List (Nat × String)) : String :=
+  match op with
+  | "submit" :: _ | "vote" :: _ =>
+    if cls != "ok" then "ok"
+    else if ext' != pre.ext then predfail "C17_submit_vote_no_effect" "external-state-changed"
+    else if !events.isEmpty then predfail "C17_submit_vote_no_effect" "proposal-closed-by-message"
+    else
+      match op with
+      | ["vote", now, pid, _, _] =>
+        match int? now, nat? pid with
+        | some now, some pid =>
+          match pre.proposals.find? (fun p => p.id == pid) with
+          | some p => if now ≥ p.deadline then predfail "C17_timing" "vote-at-or-after-deadline-accepted" else "ok"
+          | none => predfail "C17_timing" "vote-on-unknown-proposal-accepted"
+        | _, _ => badInput "vote-op"
+      | _ => "ok"
+  | ["begin", now] =>
+    match int? now with
+    | none => badInput "begin-op"
+    | some now =>
+      if cls != "ok" then predfail "C17_invalid_closed_not_halting" s!"begin-block-{cls}"
+      else
+        -- each closed pid was open, is closed once, and is gone with its votes
+        let pids := events.map (·.1)
+        if pids.eraseDups.length != pids.length then predfail "C17_enact_once" "closed-twice"
+        else if pids.any (fun p => !(pre.proposals.any (fun q => q.id == p))) then predfail "C17_enact_once" "closed-unknown-proposal"
+        else if pids.any (fun p => props'.any (fun q => q.id == p)) then predfail "C17_enact_once" "closed-proposal-still-stored"
+        else if pids.any (fun p => votes'.any (fun v => v.pid == p)) then predfail "C17_enact_once" "votes-of-closed-proposal-left"
+        else
+          -- every proposal: closed iff due
+          let bad := pre.proposals.find? fun p =>
+            let closed := pids.contains p.id
+            match pre.committees.find? (fun c => c.id == p.cid) with
+            | none => !closed
+            | some com =>
+              if now ≥ p.deadline then !closed
+              else if !com.fptp then closed
+              else false
+          match bad with
+          | some p => predfail "C17_timing" s!"{if pids.contains p.id then "closed-before-deadline" else "open-after-deadline"} pid={p.id}"
+          | none =>
+            -- every enactment had a passing tally on the observed votes and balances, and was due
+            let badE := events.find? fun (pid, o) =>
+              o == "Passed" &&
+              match pre.proposals.find? (fun p => p.id == pid) with
+              | none => true
+              | some p => match pre.committees.find? (fun c => c.id == p.cid) with
+                | none => true
+                | some com => !(tallyPasses com pre.votes pre.ext pid)
+            match badE with
+            | some (pid, _) => predfail "C17_enact_only_if_passed" s!"tally-not-passing pid={pid}"
+            | none =>
+              -- nothing changes outside the store unless something was enacted
+              if !(events.any (fun e => e.2 == "Passed")) && ext' != pre.ext then
+                predfail "C17_enact_only_if_passed" "external-state-changed-without-enactment"
+              else "ok"
+  | _ => "ok"
+
+def runOp (s : LSt) (op : List String) : Option (Res LSt) :=
+  match op with
+  | ["submit", now, pr, cid, c] =>
+    match int? now, nat? pr, nat? cid, parseLC c with
+    | some now, some pr, some cid, some c => some (submit lenv s now pr cid c)
+    | _, _, _, _ => none
+  | ["vote", now, pid, v, t] =>
+    match int? now, nat? pid, nat? v, parseVT t with
+    | some now, some pid, some v, some t => some (vote s now pid v t)
+    | _, _, _, _ => none
+  | ["begin", now] => (int? now).map fun now => beginBlock lenv now s
+  | ["setcom", c] => (parseCom c).map fun c => .ok (setCommittee s c)
+  | ["delcom", cid] => (nat? cid).map fun cid => .ok (deleteCommittee s cid)
+  | _ => none
+
+def handleLife : Handler
+  | [comsS, propsS, votesS, nextS, extS, opS, _, cls, propsS', votesS', nextS', extS', eventsS] =>
+    match (lst comsS ";").mapM parseCom, (strs propsS ";").mapM parseProp, (strs votesS ";").mapM parseVote,
+          nat? nextS, parseExt extS, (strs propsS' ";").mapM parseProp, (strs votesS' ";").mapM parseVote,
+          nat? nextS', parseExt extS', parseEvents (if eventsS == "-" then "" else eventsS) with
+    | some coms, some props, some votes, some next, some ext, some props', some votes', some next', some ext', some events =>
+      let s : LSt := { committees := coms, proposals := props, votes := votes, nextId := next, ext := ext, log := [] }
+      let op := opS.splitOn " "
+      match runOp s op with
+      | none => badInput "op"
+      | some res =>
+        let mcls := match res with | .ok _ => "ok" | .err => "err" | .panic => "panic"
+        let pr0 := lifePred s op cls props' votes' ext' events
+        if pr0 != "ok" then pr0
+        else if mcls != cls then mismatch "class" mcls cls
+        else
+          let cmp := match res with
+            | .ok m =>
+              allOk [
+                expectEq "proposals" (showList (m.proposals.map showProp) ";") (showList (props'.map showProp) ";"),
+                expectEq "votes" (showList ((sortVotes m.votes).map showVote) ";") (showList ((sortVotes votes').map showVote) ";"),
+                expectEq "nextId" (toString m.nextId) (toString next'),
+                expectEq "ext" (showExt m.ext) (showExt ext'),
+                expectEq "events" (showList ((closedEvents m.log).map fun e => s!"{e.1}:{e.2}") ",")
+                                  (showList (events.map fun e => s!"{e.1}:{e.2}") ",")]
+            | _ =>
+              -- a refused message leaves everything as it was
+              allOk [
+                expectEq "proposals-after-refusal" (showList (props.map showProp) ";") (showList (props'.map showProp) ";"),
+                expectEq "votes-after-refusal" (showList ((sortVotes votes).map showVote) ";") (showList ((sortVotes votes').map showVote) ";"),
+                expectEq "ext-after-refusal" (showExt ext) (showExt ext')]
+          let pr := lifePred s op cls props' votes' ext' events
+          if pr != "ok" then pr else cmp
+    | _, _, _, _, _, _, _, _, _, _ => badInput "parse"
+  | _ => badInput "arity"
+
 /-- handlers of property C17: (command name, handler) -/
-def handlers : List (String × Handler) := []
+def handlers : List (String × Handler) :=
+  [("c17.apc", handleApc), ("c17.has", handleHas), ("c17.life", handleLife)]
 end Drv.C17
